@@ -22,6 +22,9 @@ import time
 import traceback
 
 VERIF = os.path.dirname(os.path.dirname(os.path.abspath(__file__)))
+# Self-validation runs against scratch copies (VK_REPO) write their evidence / replay files elsewhere, so that the
+# committed evidence always comes from runs against /repo itself.
+OUT = os.environ.get("VK_OUT") or VERIF
 MAX_SAMPLES = 8
 MAX_WITNESS_PER_KEY = 1
 
@@ -201,6 +204,12 @@ def run_units(ctx: Ctx, module, units: list):
     inside the library => violation; raised from the harness => unit error (inconclusive)."""
     for spec in units:
         ctx.cur_unit = spec
+        try:
+            from vk import monitors as _mon
+
+            _mon.CURRENT_UNIT = spec
+        except Exception:  # noqa: BLE001
+            pass
         t_unit = time.time()
         try:
             module.run_unit(ctx, spec)
@@ -256,7 +265,7 @@ def finish(ctx: Ctx, module, *, replay_mode: bool = False, inconclusive_reasons=
 
     for v in listed:
         print(f"KNOWN-FINDING: property={prop} {v['key']} :: {known[v['key']].get('what', '')} (observed {v['count']}x)")
-    replay_dir = os.path.join(VERIF, "replay", prop)
+    replay_dir = os.path.join(OUT, "replay", prop)
     rc = 0
     if new:
         os.makedirs(replay_dir, exist_ok=True)
@@ -301,8 +310,8 @@ def finish(ctx: Ctx, module, *, replay_mode: bool = False, inconclusive_reasons=
             "wall_s": round(wall, 2),
             "violations": len(new),
         }
-        os.makedirs(os.path.join(VERIF, "evidence"), exist_ok=True)
-        out = os.path.join(VERIF, "evidence", f"{prop}.json")
+        os.makedirs(os.path.join(OUT, "evidence"), exist_ok=True)
+        out = os.path.join(OUT, "evidence", f"{prop}.json")
         tmp = out + ".tmp"
         with open(tmp, "w") as f:
             json.dump(ev, f, indent=1)
